@@ -71,54 +71,63 @@ def twoExpTy (ds : List Char) : Option Ty :=
   else if 2 ^ Nat.log2 y = y then some (Prog.wordTy (Nat.log2 y))
   else none
 
-/-- `while peek == '?'`: `A?` is `1 + A` -/
-def questions : Ty → List Tok → Ty × List Tok
-  | t, .question :: ts => questions (.sum .one t) ts
-  | t, ts => (t, ts)
-
 /-- `MAX_NESTING_DEPTH` -/
 def maxDepth : Nat := 1000
 
+/-- `while peek == '?'`: `A?` is `1 + A`; `d` = depth of the type built so far (`set_type_depth`
+fails beyond `MAX_NESTING_DEPTH`) -/
+def questions : Ty → Nat → List Tok → Option (Ty × Nat × List Tok)
+  | t, d, .question :: ts => if d + 1 > maxDepth then none else questions (.sum .one t) (d + 1) ts
+  | t, d, ts => some (t, d, ts)
+
 mutual
-/-- `parse_type_atom`; `n` = recursion fuel (technical), `d` = remaining nesting budget
-(`MAX_NESTING_DEPTH - depth`; `0` = "nesting too deep") -/
-def parseAtom : Nat → Nat → List Tok → Option (Ty × List Tok)
+/-- `parse_type_atom`; `n` = recursion fuel (technical), `b` = remaining budget of nested parser
+calls (`MAX_NESTING_DEPTH - depth`; `0` = "nesting too deep").  Returns the type, the depth the
+parser records for it (atoms 1, `?` +1, `+`/`*` 1 + max) and the remaining tokens. -/
+def parseAtom : Nat → Nat → List Tok → Option (Ty × Nat × List Tok)
   | 0, _, _ => none
   | _, 0, _ => none
-  | n + 1, d + 1, ts =>
+  | n + 1, b + 1, ts =>
     match ts with
-    | .one :: ts => some (questions .one ts)
-    | .two :: ts => some (questions bitTy ts)
-    | .twoExp ds :: ts => (twoExpTy ds).map fun t => questions t ts
+    | .one :: ts => questions .one 1 ts
+    | .two :: ts => questions bitTy 1 ts
+    | .twoExp ds :: ts =>
+      match twoExpTy ds with
+      | some t => questions t 1 ts
+      | none => none
     | .lparen :: ts =>
-      match parseTy n d ts with
-      | some (t, .rparen :: ts') => some (questions t ts')
+      match parseTy n b ts with
+      | some (t, d, .rparen :: ts') => questions t d ts'
       | _ => none
     | _ => none
 /-- `parse_type` -/
-def parseTy : Nat → Nat → List Tok → Option (Ty × List Tok)
+def parseTy : Nat → Nat → List Tok → Option (Ty × Nat × List Tok)
   | 0, _, _ => none
-  | n + 1, d, ts =>
-    match parseAtom n d ts with
-    | some (a, ts') => parseOps n d a ts'
+  | n + 1, b, ts =>
+    match parseAtom n b ts with
+    | some (a, d, ts') => parseOps n b a d ts'
     | none => none
 /-- the `loop` of `parse_type` -/
-def parseOps : Nat → Nat → Ty → List Tok → Option (Ty × List Tok)
-  | 0, _, _, _ => none
-  | n + 1, d, lhs, ts =>
+def parseOps : Nat → Nat → Ty → Nat → List Tok → Option (Ty × Nat × List Tok)
+  | 0, _, _, _, _ => none
+  | n + 1, b, lhs, dl, ts =>
     match ts with
     | .plus :: ts =>
-      match parseAtom n d ts with
-      | some (r, ts') => parseOps n d (.sum lhs r) ts'
+      match parseAtom n b ts with
+      | some (r, dr, ts') =>
+        if 1 + max dl dr > maxDepth then none else parseOps n b (.sum lhs r) (1 + max dl dr) ts'
       | none => none
     | .star :: ts =>
-      match parseAtom n d ts with
-      | some (r, ts') => parseOps n d (.prod lhs r) ts'
+      match parseAtom n b ts with
+      | some (r, dr, ts') =>
+        if 1 + max dl dr > maxDepth then none else parseOps n b (.prod lhs r) (1 + max dl dr) ts'
       | none => none
-    | _ => some (lhs, ts)
+    | _ => some (lhs, dl, ts)
 end
 
-/-- fuel that suffices for a token list -/
-def tyFuel (ts : List Tok) : Nat := 2 * ts.length + 4
+/-- a type at the top of an arrow -/
+def parseType (ts : List Tok) : Option (Ty × List Tok) :=
+  (parseTy (2 * ts.length + 4) maxDepth ts).map fun (t, _, r) => (t, r)
+
 
 end HT
